@@ -13,7 +13,7 @@ use crate::rng::Rng;
 pub const RULE: &str = "case = (alphabet, scoring matrix with finite non-wildcard entries, background uniform or dyadic non-uniform with zero wildcard frequency). For DNA widths <= 8 and protein widths <= 3 the exact distribution of the score of a background-distributed word is enumerated (all K^M words, f64) and every pvalue(s) must lie in [P(S >= s+d), P(S >= s-d)] (+-1e-9), d = (M/2+1) discretisation steps (step read back through unscale); query scores: below the minimum, above the maximum, exactly attainable, attainable +- epsilon, uniform in range. Structural checks for all widths up to 30: sf() non-increasing within [0,1], p-values non-increasing along an increasing score grid, pvalue(score(p)) <= p for p log-uniform in (0,1) and equal to tabulated tails. Non-trivial = width >= 2; distinct = distinct (alphabet, matrix, background).";
 
 pub const REQUIRED: &[&str] = &[
-    "alphabet.dna", "alphabet.protein", "bg.uniform", "bg.nonuniform", "exact.enumerated", "structural.only",
+    "alphabet.dna", "alphabet.protein", "bg.uniform", "bg.nonuniform", "bg.skewed_from_counts", "exact.enumerated", "structural.only",
     "query.below_min", "query.far_below_min", "query.far_above_max", "query.above_max", "query.attainable", "query.attainable_eps", "query.random",
     "roundtrip.p_log_uniform", "roundtrip.p_attainable_tail", "matrix.log_odds", "matrix.arbitrary_finite",
 ];
@@ -24,7 +24,16 @@ fn run_case<A: Alphabet>(case: u64, rng: &mut Rng, rep: &mut Report, alpha: &str
     rep.cover(&format!("alphabet.{}", alpha));
     let exact_mode = rng.chance(0.8);
     let m = if exact_mode { rng.range(1, max_exact) } else { rng.range(max_exact + 1, 30) };
-    let (bgv, bg) = if rng.chance(0.5) {
+    let (bgv, bg) = if rng.chance(0.15) {
+        // strongly skewed background from counts (rare symbols have tiny probabilities): word
+        // probabilities span many orders of magnitude, so lost mass shows in relative terms
+        rep.cover("bg.skewed_from_counts");
+        let mut c: Vec<usize> = (0..k).map(|j| if j == k - 1 { 0 } else { 1 }).collect();
+        c[rng.below(k - 1)] = *rng.pick(&[9997usize, 99_997, 997]);
+        let ga: GenericArray<usize, A::K> = c.iter().cloned().collect();
+        let b = Background::<A>::from_counts(&ga).unwrap();
+        (b.frequencies().to_vec(), b)
+    } else if rng.chance(0.5) {
         rep.cover("bg.uniform");
         (uniform_bg(k), Background::<A>::uniform())
     } else {
@@ -189,8 +198,10 @@ fn run_case<A: Alphabet>(case: u64, rng: &mut Rng, rep: &mut Report, alpha: &str
             let hi = ex.sf(sq - d);
             // f32 background frequencies need not sum to exactly one once widened to f64
             let bg_sum: f64 = bgv.iter().map(|&x| x as f64).sum();
+            // relative: the table is built from sums of non-negative f64 terms, so tiny tail
+            // probabilities are accurate to rounding too (absolute slack 1e-300 for exact zeros)
             let noise = 1e-9 + 2.0 * (m as f64) * (bg_sum - 1.0).abs();
-            if p < lo - noise || p > hi + noise {
+            if p < lo * (1.0 - noise) - 1e-300 || p > hi * (1.0 + noise) + 1e-300 {
                 rep.violate(
                     "c11.tail_bounds",
                     case,
